@@ -3,6 +3,7 @@
 //!   celharness check <Cxx> --tier quick|thorough --seed N --model <celmodel> --corpus <file>
 //!                    --known <known_findings.jsonl> --out <evidence-part.json> --replay-dir <dir>
 //!   celharness replay <file> --model <celmodel>
+mod anyser;
 mod ctx;
 mod gen;
 mod model;
